@@ -432,21 +432,31 @@ def mon_c15(k, domain, wildcard=False):
             if h["last"]:
                 u.done = True
             continue
+        # "the true end of the packet": the compressed stream (zlib) ends exactly with this fragment - neither earlier
+        # nor with bytes to spare.  Packets read from the server's tun are additionally recognised by content; packets
+        # forwarded from another client are judged by the stream alone.
         complete = None
+        exact_end = False
         try:
-            complete = zlib.decompress(u.asm)
+            dobj = zlib.decompressobj()
+            complete = dobj.decompress(u.asm)
+            exact_end = dobj.eof and not dobj.unused_data
+            if not dobj.eof:
+                complete = None
         except zlib.error:
             complete = None
         if h["last"]:
             u.done = True
-            if complete is None or complete not in offered:
-                viol.append(("C15:last-flag-early", "session %d packet seq %d: last-fragment flag on fragment %d but the %d bytes so far are not a complete offered frame"
+            if complete is None or not exact_end:
+                viol.append(("C15:last-flag-early", "session %d packet seq %d: last-fragment flag on fragment %d but the %d bytes so far are not a complete packet"
                              % (tk[1], h["dn_seq"], h["dn_frag"], len(u.asm)), {"time_us": ev[0]}))
             else:
                 stats["c15_packets_completed"] += 1
+                if complete not in offered:
+                    stats["c15_forwarded_packets_completed"] = stats.get("c15_forwarded_packets_completed", 0) + 1
         else:
-            if complete is not None and complete in offered:
-                viol.append(("C15:last-flag-missing", "session %d packet seq %d: fragment %d completes an offered frame but carries no last flag"
+            if complete is not None and exact_end:
+                viol.append(("C15:last-flag-missing", "session %d packet seq %d: fragment %d completes the packet but carries no last flag"
                              % (tk[1], h["dn_seq"], h["dn_frag"]), {"time_us": ev[0]}))
     stats["c15_fragsizes"] = len(fsizes)
     return viol, stats, fsizes
